@@ -27,6 +27,21 @@ CLAIMED = {
             "unified / flattened / update / add_bundle / JSON / XML reload is probed with every spelling of every "
             "present identifier and absent ones; get_record, get_records(cls) and records are compared with a scan "
             "of the record list.", TECH, NOTE),
+    "C08": ("Every document reachable by <= depth record/attribute additions that make identifiers collide (same "
+            "identifier through a prefix, an alias prefix and the full URI; entity/agent/activity; generation/usage; "
+            "conflicting times and activities; document and bundle) is unified and compared with a reference "
+            "unification computed on strict observations: result content and order, refusal iff a single-valued "
+            "conflict exists, idempotence, bundle-level unified(), source unchanged.", TECH, NOTE),
+    "C09": ("All states of a 17-letter document alphabet to depth 3 are collected; for every ordered pair (d, other) "
+            "every sequence of up to 2 (thorough 3) operations from update / add_bundle (document, no identifier, "
+            "duplicate identifier, stand-alone bundle) / flattened is executed on fresh replays and compared step by "
+            "step with multiset arithmetic on strict observations; other must stay unchanged, refusals must leave d "
+            "unchanged, and the result must survive a PROV-JSON round trip.", TECH, NOTE),
+    "C12": ("All states of a 13-letter alphabet x every deriving operation (record copy, add_record, constructor, "
+            "update, add_bundle(document), unified, flattened, JSON/XML reload) x every follow-up mutation (attribute "
+            "on each record, new record, add_namespace incl. clashing, set_default_namespace, bundle(), the same "
+            "inside each bundle) x side mutated (thorough: x a second mutation on the other side); the untouched "
+            "side's ordered strict content and namespace observation must not change.", TECH, NOTE),
 }
 
 NA = {}
